@@ -83,10 +83,10 @@ CHECKS["C15"] = ("E2r", "deterministic simulation under the Go race detector: th
   "exploration",
   "(1) any race report is a violation (worker stops at the first one, the run in flight is regenerated from a progress file as the replay); (2) no panic, no deadlock, all callers finish; (3) a request on a churned resource is always decided by one of the two complete rule lists (blocked by block0 or block1), never a mixture; (4) the stable and the rule-free resource are unaffected by churn elsewhere. Sampled schedules (3*10^4 per quick run).",
   "Trusted: the norace spin hand-off adds no synchronisation (probed: an unlocked map race is reported, a locked one is not); the race detector's bounded shadow memory (short runs); SimPool publishes Put->Get of the same object only.", "DESIGN.md §3 C15")
-CHECKS["C19"] = ("driver", "seeded fault-injecting drivers executed inside the adapters' own Go modules (driver test files overlaid with go test -overlay / -modfile): request sequences x handler fault (ok / error / panic) x admission (free / blocked by a threshold-0 flow rule) x fallback configured or not, dispatched in-process through gin, echo, the four gRPC interceptors and the go-micro wrappers (incl. the outlier branch); a recording statistic slot on the global chain and the resource node are the observation points. Thin simulation content: no clock, no schedule.",
+CHECKS["C19"] = ("driver", "seeded fault-injecting drivers executed inside the adapters' own Go modules (driver test files overlaid with go test -overlay / -modfile): request sequences x handler fault (ok / error / panic) x admission (free / blocked by a threshold-0 flow rule) x fallback configured or not, dispatched in-process through every adapter that builds in the sandbox: gin, echo, fiber, gear, goframe, iris, go-zero (global and routing middleware), the four gRPC interceptors, the go-micro wrappers and the kratos client middleware (both incl. the outlier branch); a recording statistic slot on the global chain, a snapshot of it taken when the wrapped handler starts, and the resource node are the observation points. Thin simulation content: no clock, no schedule.",
   "exploration",
-  "For the 10 driven entry points: handler runs exactly once iff admitted, blocked => fallback / default rejection and no handler call, exactly one pass-or-block and exactly one completion per request (also when the handler panics), handler errors traced where the wrapper receives them, concurrency back to 0. The remaining entry points (fiber, gear, goframe, go-zero, iris; hertz, kitex, kratos do not build with the sandbox toolchain) are listed in the evidence as found-but-not-driven, not claimed; the clause about all future entry points is not decidable by execution.",
-  "Trusted: the scripted handlers and the recording slot; gin / echo / grpc use the released sentinel version their go.mod selects (module cache), micro the working tree.", "DESIGN.md §3 C19")
+  "For the 18 driven entry points of 10 adapters: handler runs exactly once iff admitted and runs inside the entry (one pass, no completion yet when it starts), blocked => fallback / default rejection and no handler call, exactly one pass-or-block and exactly one completion per request (also when the handler panics), handler errors traced where the wrapper receives them, concurrency back to 0. hertz and kitex do not build with the sandbox toolchain (sonic / pid assembly) and are listed in the evidence as found-but-not-driven, not claimed; the clause about all future entry points is not decidable by execution.",
+  "Trusted: the scripted handlers and the recording slot; adapters whose go.mod has no replace directive (gin, echo, grpc, fiber, gear, go-zero, goframe, iris) are built against the released sentinel version that go.mod selects from the module cache (the working tree's core cannot be substituted offline: its dependency versions are not all cached for those module graphs), micro and kratos against the working tree. gear ends the entry on its own goroutine after the response: the driver waits (bounded) for that completion.", "DESIGN.md §3 C19, §9.1")
 NOT_YET = {}
 props = [json.loads(l) for l in open(os.path.join(HERE, 'properties.jsonl'))]
 checks, na = [], []
